@@ -188,7 +188,7 @@ theorem tie_withAcceptable_sem :
 
 /-- what one `WithAcceptable` option does to the connection in the tree as it is now: the pinned closure (a nil
 argument is installed / later CALLED: finding, `Props.witness_nil_option_violates_orderly_return`) or the one with
-fixes/C14-withacceptable-nil.patch (leading `if acceptable == nil { return }`: `Props.fixed_nil_options_ignored`) -/
+fixes/not-applied/C14-withacceptable-nil.patch (leading `if acceptable == nil { return }`: `Props.fixed_nil_options_ignored`) -/
 def optionStep : AccFnP → AccFnP → AccFnP :=
   if withAcceptableNilGuard then withAcceptableFixed else withAcceptablePinned
 
